@@ -207,6 +207,13 @@ pub fn corpus(thorough: bool) -> Vec<Vec<u8>> {
             }
         }
     }
+    // containers with a little more than a million one-byte elements (both decoders draw their size limits at the same place)
+    for n in [1_000_001u32, 1_048_577] {
+        let mut t = vec![131u8, 105]; t.extend_from_slice(&n.to_be_bytes()); t.extend(std::iter::repeat(106u8).take(n as usize)); out.push(t);
+        let mut l = vec![131u8, 108]; l.extend_from_slice(&n.to_be_bytes()); l.extend(std::iter::repeat(106u8).take(n as usize)); l.push(106); out.push(l);
+        let mut b = vec![131u8, 109]; b.extend_from_slice(&n.to_be_bytes()); b.extend(std::iter::repeat(7u8).take(n as usize)); out.push(b);
+        let mut m = vec![131u8, 116]; m.extend_from_slice(&n.to_be_bytes()); m.extend_from_slice(&[97, 1, 106]); out.push(m);
+    }
     // funs whose Size field disagrees with their real length, alone and followed by another element of a tuple / list
     {
         let mut inner = vec![1u8];
